@@ -54,6 +54,9 @@ CHECKS = {
  "C17": ("Hypothesis-generated (seeded function by introspection, arguments, seed, schedule of RNG perturbations) cases; call-twice-and-compare oracle",
          "Exploration: every public callable with a seed parameter (21 found by introspection; uncovered ones are listed) is called twice with the same arguments and seed while a generated schedule draws from / re-seeds the global Python and NumPy generators, calls the same function with other seeds and calls other seeded functions in between; the two outputs must be identical (ordered network snapshot, exact position arrays, cluster dict).",
          "Single process, no threads; schedules of at most 8 perturbations are sampled; statistical correctness of the random models is not the property.", "DESIGN.md#C17"),
+ "C18": ("Two-phase probing: candidates found by introspection; a (method, arguments) pair that changes the structure of an unfrozen copy must raise XGIError and change nothing on a frozen build / subhypergraph of the same network",
+         "Exploration over every public method of the three classes and every in_place library function with generated networks and synthesised arguments; which pairs are structural mutators is decided by observation in phase 1, so new mutators are included without editing the check; frozen networks come from freeze() and from subhypergraph(); is_frozen and copy-of-frozen (equal, unfrozen, editable) are checked as well. The evidence lists the mutators discovered and the candidates never seen mutating.",
+         "Arguments come from a name-keyed registry (uncovered candidates are listed); no-op pairs are not required to raise; attribute setters are not structural.", "DESIGN.md#C18"),
  "C05": ("Model-based testing: Hypothesis-generated histories applied step by step to xgi and to reference models transcribed from the docstrings (three classes), metamorphic relations for the degree-preserving moves",
          "Exploration by refinement checking against an executable specification: every op of a generated history is applied to the implementation and to the model (parametric in fresh IDs, prefix semantics for bulk calls) and the observable snapshots are compared after every step, including after rejected calls and their exception types.",
          "The models are my transcription of the documentation; inputs the documentation leaves contradictory are excluded by construction and counted (see assumptions in the evidence).", "DESIGN.md#C05"),
